@@ -125,6 +125,9 @@ def get_next_imf(X, env_step_size=1, max_iters=1000, energy_thresh=None,
     if envelope_opts is None:
         envelope_opts = {}
 
+    # Work in floating point whatever the dtype of the input - the squared
+    # terms of the stop metrics overflow for small integer dtypes
+    X = X.astype(float)
     proto_imf = X.copy()
 
     continue_imf = True
